@@ -49,13 +49,13 @@ def run(report: Report, tier, seed):
         "A1 L-frag (meta-lemma, not mechanised): if every __teal__ satisfies the fragment contract, the composed graph has the composed semantics",
         "parametricity: a construct observes its children only through type_of / has_return / __teal__ (opaque proxies; class-dependent branches are enumerated as separate scenarios)",
         "control domain enumerated, not symbolic: child types x has_return x pending exits (0..2) x listed versions x modes; fragment scenarios use operator arities 2,3,5 - "
-        "the linking of the children for EVERY arity is proved separately (pyvc contracts on TealBlock.FromOp, NaryExpr.__teal__, Seq.__teal__: children chained in order, operator blocks where documented, nothing else written)",
+        "the linking of the children for EVERY arity is proved separately (pyvc contracts on TealBlock.FromOp, NaryExpr.__teal__, Seq.__teal__, Cond.__teal__: children chained in order, operator blocks where documented, nothing else written)",
         "flattenBlocks is under a pyvc contract that requires wf_blocks; sortBlocks is under a pyvc contract that ensures it (duplicate-free, closed under successors, start listed, end last); "
         "L-flat (per-block lowering => trace equivalence of graph and list) is a meta-lemma",
         "NormalizeBlocks, deferred-expression splice: covered here only by bounded stand-ins")
     run_fragcheck(report, "O1.frag", tier=tier)
     run_contracts(report, [("contracts.c01_flatten", "FlattenBlocks", "O1.26"), ("contracts.c01_sort", "SortBlocks", "O1.27"),
-                           ("contracts.c01_link", "FromOp", "O1.20"), ("contracts.c01_link", "NaryTeal", "O1.21"), ("contracts.c01_link", "SeqTeal", "O1.22"),
+                           ("contracts.c01_link", "FromOp", "O1.20"), ("contracts.c01_link", "NaryTeal", "O1.21"), ("contracts.c01_link", "SeqTeal", "O1.22"), ("contracts.c01_link", "CondTeal", "O1.23"),
                            ("contracts.c01_substring", "SubstringConst", "O1.14a"), ("contracts.c01_substring", "ExtractConst", "O1.14b"),
                            ("contracts.c01_substring", "SuffixConst", "O1.14c")])
     from . import substring_native
